@@ -33,6 +33,8 @@ def assess(seq, ratios=(1.0,), overrides=None, G=None, single=False, layout='pla
         else:
             labels = {'scattered_ids': SCATTERED[:len(G)], 'g_labels': [11, 5, 8, 2, 6][:len(G)]}.get(layout, list(range(len(G))))
             p['G'] = pd.Series(list(G), index=pd.Index(labels, name='node_id'))
+    if layout == 'np_bool_flag':       # a truthy request that is not the literal True
+        p['max_load_independently_for_nodes'] = np.bool_(True)
     ap = pd.Series(p)
     if single:
         ls = pd.Series([float(ratios[0]) * float(v) for v in seq])
